@@ -12,6 +12,7 @@ import GT.Properties.C17_n4
 import GT.Properties.C17_n5
 import GT.Properties.C17_n6
 import GT.Lemmas.So31
+import GT.Lemmas.So31Det
 import Mathlib.LinearAlgebra.Matrix.NonsingularInverse
 import Mathlib.Analysis.SpecialFunctions.Sqrt
 import Mathlib.Tactic.Positivity
@@ -346,6 +347,16 @@ theorem sl2cToSo31_preserves (h2 : (2 : K) ≠ 0) (M : Matrix (Fin 2) (Fin 2) (C
   rw [sl2cToSo31_form h2, detNormSq, h]
   simp
 
+/-- `det sl2c_to_so31(M) = |det M|⁴`: determinant one on `SL(2,ℂ)` -/
+theorem sl2cToSo31_det (h2 : (2 : K) ≠ 0) (M : Matrix (Fin 2) (Fin 2) (Cx K)) :
+    (sl2cToSo31 M).det = detNormSq M ^ 2 := sl2cToSo31_det' h2 M
+
+theorem sl2cToSo31_so31 (h2 : (2 : K) ≠ 0) (M : Matrix (Fin 2) (Fin 2) (Cx K)) (h : M.det = 1) :
+    (sl2cToSo31 M)ᵀ * mink31 * sl2cToSo31 M = mink31 ∧ (sl2cToSo31 M).det = 1 := by
+  refine ⟨sl2cToSo31_preserves h2 M h, ?_⟩
+  rw [sl2cToSo31_det h2, detNormSq, h]
+  simp
+
 example : detNormSq (!![⟨1, 1⟩, ⟨2, 0⟩; ⟨0, 1⟩, ⟨3 / 2, 1 / 2⟩] : Matrix (Fin 2) (Fin 2) (Cx ℚ)) = 1 := by
   simp [detNormSq, Matrix.det_fin_two]; norm_num
 
@@ -419,6 +430,38 @@ theorem oToPgl_hom_up_to_sign (hr : IsSqrt r) (A B : Matrix (Fin 2) (Fin 2) K)
   rcases oToPgl_recovers hr B hB with eb | eb <;>
   rw [e, ea, eb] <;> simp
 
+/-! ### the `bilinear_form=` option: any form of signature (2,1), under the `diagonalize_form` contract -/
+
+/-- the default form is the instance `W = Winv = (2,1,0)-permutation` -/
+theorem oToPgl_eq_form (S : Matrix (Fin 3) (Fin 3) K) : oToPgl r S = oToPglForm r perm210 perm210 S := rfl
+
+/-- `A_d` is a conjugation, hence multiplicative — *provided* the second matrix returned by
+`diagonalize_form` is the inverse of the first (it is `Wᵀ` only when `W` is orthogonal) -/
+theorem oToPglAdForm_mul (W Winv S T : Matrix (Fin 3) (Fin 3) K) (hW : W * Winv = 1) :
+    oToPglAdForm W Winv (S * T) = oToPglAdForm W Winv S * oToPglAdForm W Winv T := by
+  unfold oToPglAdForm
+  have e : killingConjInv * Winv * S * (W * killingConj) * (killingConjInv * Winv * T * (W * killingConj))
+      = killingConjInv * Winv * S * (W * (killingConj * killingConjInv) * Winv) * T * (W * killingConj) := by
+    simp only [Matrix.mul_assoc]
+  rw [e, killingConj_mul_inv two_ne_zero, Matrix.mul_one, hW, Matrix.mul_one]
+  simp only [Matrix.mul_assoc]
+
+/-- if `W` carries the given form to the standard one so that the conjugated isometry is the
+image of `A` (`Winv S W = P · sl2_to_so21 A · P`), `o_to_pgl(S, form)` is `±A` -/
+theorem oToPglForm_recovers (hr : IsSqrt r) (A : Matrix (Fin 2) (Fin 2) K) (h : A.det ≠ 0)
+    (W Winv S : Matrix (Fin 3) (Fin 3) K) (hS : Winv * S * W = perm210 * sl2ToSo21 A * perm210) :
+    oToPglForm r W Winv S = A ∨ oToPglForm r W Winv S = -A := by
+  have e : oToPglAdForm W Winv S = oToPglAd (sl2ToSo21 A) := by
+    unfold oToPglAdForm oToPglAd
+    calc killingConjInv * Winv * S * (W * killingConj)
+        = killingConjInv * (Winv * S * W) * killingConj := by simp only [Matrix.mul_assoc]
+      _ = killingConjInv * perm210 * sl2ToSo21 A * (perm210 * killingConj) := by
+          rw [hS]; simp only [Matrix.mul_assoc]
+  have := oToPgl_recovers hr A h
+  unfold oToPglForm
+  unfold oToPgl at this
+  rw [e]; exact this
+
 /-- **negative result for the pinned tree** (D11): with its entry/sign extraction,
 `o_to_pgl (sl2_to_so21 A)` for `A = [[2,3],[1,2]] ∈ SL(2)` is `[[2,1],[3,2]] = P·A·P`, which is
 neither `A` nor `-A`: the last clause of the property is false of the pinned code -/
@@ -426,9 +469,9 @@ theorem oToPglPinned_not_recovers (hr : IsSqrt r) :
     oToPglPinned r (sl2ToSo21 (!![2, 3; 1, 2] : Matrix (Fin 2) (Fin 2) K)) = !![2, 1; 3, 2] ∧
     ¬ (oToPglPinned r (sl2ToSo21 (!![2, 3; 1, 2] : Matrix (Fin 2) (Fin 2) K)) = !![2, 3; 1, 2] ∨
        oToPglPinned r (sl2ToSo21 (!![2, 3; 1, 2] : Matrix (Fin 2) (Fin 2) K)) = -!![2, 3; 1, 2]) := by
-  have r4 : r |(2 : K) ^ 2| = 2 := by rw [hr.abs_sq, abs_of_pos]; norm_num
-  have r9 : r |(3 : K) ^ 2| = 3 := by rw [hr.abs_sq, abs_of_pos]; norm_num
-  have r1 : r |(1 : K) ^ 2| = 1 := by rw [hr.abs_sq, abs_of_pos]; norm_num
+  have r4 : r |(2 : K) ^ 2| = 2 := by rw [isSqrt_abs_sq hr, abs_of_pos]; norm_num
+  have r9 : r |(3 : K) ^ 2| = 3 := by rw [isSqrt_abs_sq hr, abs_of_pos]; norm_num
+  have r1 : r |(1 : K) ^ 2| = 1 := by rw [isSqrt_abs_sq hr, abs_of_pos]; norm_num
   have hval : oToPglPinned r (sl2ToSo21 (!![2, 3; 1, 2] : Matrix (Fin 2) (Fin 2) K)) = !![2, 1; 3, 2] := by
     unfold oToPglPinned
     rw [oToPglAd_sl2ToSo21 two_ne_zero, sl2Irrep_three]
@@ -463,10 +506,10 @@ theorem oToPglPinned_partial (hr : IsSqrt r) (A : Matrix (Fin 2) (Fin 2) K)
   set b := A 0 1
   set c := A 1 0
   set d := A 1 1
-  have hdd : r |d ^ 2| = |d| := hr.abs_sq d
-  have hcc : r |c ^ 2| = |c| := hr.abs_sq c
-  have hbb : r |b ^ 2| = |b| := hr.abs_sq b
-  have haa : r |a ^ 2| = |a| := hr.abs_sq a
+  have hdd : r |d ^ 2| = |d| := isSqrt_abs_sq hr d
+  have hcc : r |c ^ 2| = |c| := isSqrt_abs_sq hr c
+  have hbb : r |b ^ 2| = |b| := isSqrt_abs_sq hr b
+  have haa : r |a ^ 2| = |a| := isSqrt_abs_sq hr a
   rw [hdd, hcc, hbb, haa]
   have hc2 : 0 < c ^ 2 := by positivity
   rcases lt_or_gt_of_ne hd with hd0 | hd0
